@@ -223,15 +223,15 @@ func verifPred(key string) bool {
 	verifState.preds[key] = v
 	return v
 }
-func verifFmtOK(format, s string) bool    { return verifPred("fmt:" + format + ":" + s) }
-func verifKnownFmt(format string) bool    { return verifPred("known:" + format) }
+func verifFmtOK(format, s string) bool { return verifPred("fmt:" + format + ":" + s) }
+func verifKnownFmt(format string) bool { return verifPred("known:" + format) }
 func verifMatches(pattern, s string) bool {
 	re, err := regexp.Compile(pattern)
 	return err == nil && re.MatchString(s)
 }
 
-func verifRuneCount(s string) int64 { return int64(utf8.RuneCountInString(s)) }
-func verifFoldEq(a, b string) bool  { return strings.EqualFold(a, b) }
+func verifRuneCount(s string) int64      { return int64(utf8.RuneCountInString(s)) }
+func verifFoldEq(a, b string) bool       { return strings.EqualFold(a, b) }
 func verifChecking(property string) bool { return verifState.property == property }
 
 func verifSubset(a, b []string) bool {
@@ -260,10 +260,10 @@ func verifNoDup(a []string) bool {
 }
 
 // environment models: the real thing runs natively
-func verifHavocPools(on bool)                 {}
-func verifPoolInv(roots ...interface{})       {}
-func verifPooledCount() int                   { return 0 }
-func verifPermMaps(on bool)                   {}
+func verifHavocPools(on bool)           {}
+func verifPoolInv(roots ...interface{}) {}
+func verifPooledCount() int             { return 0 }
+func verifPermMaps(on bool)             {}
 
 // native twin of the frame monitor: a deep dump of the frozen value is taken and compared again at
 // verifUnfreeze; a net change is recorded as the failed label "frame:<label>".
